@@ -173,6 +173,21 @@ __CPROVER_ensures(cv_words[0] == SPEC_LOAD32(bytes_out, 0) && cv_words[1] == SPE
                                        flags_start, flags_end, VW_IDX(out) / 32, VW_IDX(out) % 32)))
 
 /* ---- portable kernels (bodies verified in their own units) -------------------------- */
+/* the 7 rounds: writes exactly the 16 state words.  *_fn: they are THE uninterpreted function of the five
+ * value arguments (this clause is the definition of VERIF_UF_PRE: compress_pre is a deterministic C function
+ * of exactly these arguments, see its frame unit); the two portable kernels are then ENFORCED against
+ * cv' = lo ^ hi resp. out = (lo ^ hi, hi ^ cv), the feed-forward they implement themselves */
+static inline void compress_pre(uint32_t state[16], const uint32_t cv[8],
+                                const uint8_t block[BLAKE3_BLOCK_LEN], uint8_t block_len,
+                                uint64_t counter, uint8_t flags)
+__CPROVER_requires(__CPROVER_w_ok(state, 64))
+__CPROVER_requires(__CPROVER_r_ok(cv, 32))
+__CPROVER_requires(__CPROVER_r_ok(block, 64))
+FN(__CPROVER_requires(VERIF_DISJ(state, 64, cv, 32) && VERIF_DISJ(state, 64, block, 64)))
+__CPROVER_assigns(__CPROVER_object_upto(state, 64))
+FN(__CPROVER_ensures(V512(state) == VERIF_UF_PRE(cv, block, block_len, counter, flags)))
+;
+
 void blake3_compress_in_place_portable(uint32_t cv[8], const uint8_t block[BLAKE3_BLOCK_LEN],
                                        uint8_t block_len, uint64_t counter, uint8_t flags)
 COMPRESS_IN_PLACE_REQUIRES
@@ -638,6 +653,10 @@ static inline void compress_subtree_to_parent_node(const uint8_t *input, size_t 
                                                    uint8_t flags, uint8_t out[2 * BLAKE3_OUT_LEN],
                                                    bool use_tbb)
 __CPROVER_requires(1024 < input_len && input_len <= VERIF_MAX_OBJ)
+/* tree structure (spec): a complete subtree of 2^k chunks starts at a chunk index divisible by 2^k, i.e. the
+ * number of bytes before it is a multiple of its length (blake3_hasher_update_base, the only caller, passes
+ * powers of two: this is what its shrink loop `(subtree_len - 1) & count_so_far` establishes) */
+__CPROVER_requires(IS_POW2(input_len) ==> (((uint64_t)(input_len - 1)) & (chunk_counter * BLAKE3_CHUNK_LEN)) == 0)
 __CPROVER_requires(__CPROVER_is_fresh(input, input_len))
 __CPROVER_requires(__CPROVER_is_fresh(key, 32))
 __CPROVER_requires(__CPROVER_is_fresh(out, 64))
@@ -763,11 +782,9 @@ HASHER_UPDATE_CONTRACT
 #define VFIN_CVC(h)                                                                      \
   VERIF_UF_CIP((h)->chunk.cv, (h)->chunk.buf, (h)->chunk.buf_len, (h)->chunk.chunk_counter, VFIN_CFLAGS(h))
 #define VFIN_P(h, l, r)                                                                  \
-  __CPROVER_uninterpreted_blake3_cip(V256((h)->key), VFIN_PAIR(l, r), (uint8_t)64, (uint64_t)0, \
-                                     (uint8_t)((h)->chunk.flags | PARENT))
+  VERIF_CIP_V(V256((h)->key), VFIN_PAIR(l, r), 64, 0, (h)->chunk.flags | PARENT)
 #define VFIN_ROOTP(h, l, r, ctr)                                                         \
-  __CPROVER_uninterpreted_blake3_xof(V256((h)->key), VFIN_PAIR(l, r), (uint8_t)64, (uint64_t)(ctr), \
-                                     (uint8_t)((h)->chunk.flags | PARENT | ROOT))
+  VERIF_XOF_V(V256((h)->key), VFIN_PAIR(l, r), 64, ctr, (h)->chunk.flags | PARENT | ROOT)
 #define VFIN_ROOT(h, ctr)                                                                \
   ((h)->cv_stack_len == 0                                                                \
      ? VERIF_UF_XOF((h)->chunk.cv, (h)->chunk.buf, (h)->chunk.buf_len, ctr, VFIN_CFLAGS(h) | ROOT) \
